@@ -22,6 +22,25 @@ def _is_symbolic(x, depth=2):
   return False
 
 
+import re as _re
+_SPEC = _re.compile(r'%(\(\w*\))?[-#0 +]*(\*|\d+)?(\.(\*|\d+))?[hlL]?([diouxXeEfFgGcrsa%])')
+
+
+def _check_percent_arity(template, args):
+  """The shim does not format, but it keeps Python's arity errors (they are behaviour)."""
+  if type(template) is not str:
+    return
+  specs = [m for m in _SPEC.finditer(template) if m.group(5) != '%']
+  if any(m.group(1) for m in specs):
+    return                      # mapping style
+  need = len(specs) + sum(1 for m in specs if m.group(2) == '*') + sum(1 for m in specs if m.group(4) == '*')
+  have = len(args) if type(args) is tuple else 1
+  if have < need:
+    raise TypeError('not enough arguments for format string')
+  if have > need and not (type(args) is not tuple and need == 0 and type(args) in (dict,)):
+    raise TypeError('not all arguments converted during string formatting')
+
+
 def install_fmtshim(objects_opaque=False):
   """%-formatting / str.format with a symbolic argument returns '<fmt>'.
 
@@ -48,6 +67,8 @@ def install_fmtshim(objects_opaque=False):
     with NoTracing():
       sym = _is_symbolic(self, 0) or _is_symbolic(other)
     if sym:
+      with NoTracing():
+        _check_percent_arity(self, other)
       return '<fmt>'
     other = deep_realize(other)
     with NoTracing():
